@@ -56,6 +56,13 @@ def gen_case(rng: Rng, max_frames: int = 12) -> dict:
                     if r[k] is not None:
                         r[k] = rng.choice(addrs)
                 rules.append((rng.choice([0, 1, 2, 3, 7, 22, 23]), r))
+            if shape >= 4:
+                # destination-specific pair: PERMIT dst=X above DENY dst=Y (or the reverse), nothing else specified
+                x, y = rng.choice(addrs[:-2]), rng.choice(addrs[:-2])
+                blank = dict(proto=None, src_ip=None, src_wc=None, dst_wc=None, src_port=None, dst_port=None)
+                acts = ("PERMIT", "DENY") if rng.chance(1, 2) else ("DENY", "PERMIT")
+                rules.append((4, dict(blank, action=acts[0], dst_ip=x)))
+                rules.append((5, dict(blank, action=acts[1], dst_ip=y)))
         case["acls"][a] = {"implicit": rng.choice(["PERMIT", "DENY"]), "rules": rules}
     n = rng.range(3, max_frames)
     for _ in range(n):
@@ -65,7 +72,15 @@ def gen_case(rng: Rng, max_frames: int = 12) -> dict:
         elif k == 1:
             case["ops"].append({"op": "power", "on": rng.chance(1, 2)})
         else:
-            case["ops"].append(gen_frame(rng, case, addrs))
+            fr = gen_frame(rng, case, addrs)
+            case["ops"].append(fr)
+            if fr["proto"] in ("tcp", "udp") and rng.chance(1, 3):
+                # history family: the same frame again with ONLY the destination address changed (same protocol, source, ports, arrival
+                # port) — the verdict must not depend on what was judged before
+                twin = dict(fr, dst_ip=rng.choice([a for a in addrs if a != fr["dst_ip"]]))
+                case["ops"].append(twin)
+                if rng.chance(1, 2):
+                    case["ops"].append(dict(fr))
     return case
 
 
